@@ -67,7 +67,14 @@ func guarded(f func()) (hung bool) {
 				hung = true
 				return
 			}
-			panic(r)
+			// a panic of the LIBRARY inside a sampling call (e.g. an index derived from an
+			// out-of-range draw): a finding, not a harness failure. The call did not complete.
+			msg := fmt.Sprint(r)
+			if len(msg) > 120 {
+				msg = msg[:120]
+			}
+			viol("panic:sampling-call", "a sampling call panicked: "+msg, replay{Kind: "panic", Note: msg})
+			hung = true
 		}
 	}()
 	f()
